@@ -105,6 +105,8 @@ func (p *Parser) parseMethod(method types.Object, opts option.Options) (*model.M
 
 	docComment, cleanUp := util.GetDocCommentOn(p.file, method)
 	notations := util.ExtractMatchComments(docComment, reNotation)
+	// What stays becomes the doc comment of the function: a directive among it would run again from the output.
+	_ = util.ExtractMatchComments(docComment, reGoBuildGen)
 	err := p.parseNotationInComments(notations, option.ValidOpsMethod, &opts)
 	if err != nil {
 		return nil, err
